@@ -53,32 +53,43 @@ fn register_document(ctx: &mut LspContext, uri: &Url, source: &str) {
     ctx.perform_codegen();
 }
 
-fn publish_diagnostics(ctx: &LspContext) -> MosResult<()> {
+fn publish_diagnostics(ctx: &mut LspContext) -> MosResult<()> {
     log::trace!("Publish diagnostics");
 
     let mut result: HashMap<String, Vec<Diagnostic>> =
         to_diagnostics(&ctx.error).into_iter().into_group_map();
 
     // Grab all the files in the project
-    if let Some(tree) = ctx.tree.as_ref() {
-        let filenames = tree
+    let filenames = match ctx.tree.as_ref() {
+        Some(tree) => tree
             .code_map
             .files()
             .iter()
             .map(|file| file.name().to_string())
-            .collect_vec();
+            .collect_vec(),
+        None => vec![],
+    };
 
-        // Publish errors (or no errors!) for every file
-        for filename in filenames {
-            let diags = result.remove(filename.as_str()).unwrap_or_default();
-            let params = PublishDiagnosticsParams::new(
-                Url::from_file_path(filename).unwrap(),
-                diags,
-                None, // todo: handle document version
-            );
+    // Files that are no longer part of the project have nothing to report anymore
+    for filename in std::mem::take(&mut ctx.published_files) {
+        if !filenames.contains(&filename) {
+            let params =
+                PublishDiagnosticsParams::new(Url::from_file_path(filename).unwrap(), vec![], None);
             ctx.publish_notification::<PublishDiagnostics>(params)?;
         }
     }
+
+    // Publish errors (or no errors!) for every file
+    for filename in &filenames {
+        let diags = result.remove(filename.as_str()).unwrap_or_default();
+        let params = PublishDiagnosticsParams::new(
+            Url::from_file_path(filename).unwrap(),
+            diags,
+            None, // todo: handle document version
+        );
+        ctx.publish_notification::<PublishDiagnostics>(params)?;
+    }
+    ctx.published_files = filenames;
     Ok(())
 }
 
